@@ -20,6 +20,7 @@ from typing import Any, Dict, List, Optional, Tuple
 
 import numpy as np
 
+from .catalog_b import JudgeOnly
 from .kernel import H, RunResult, Streams, Violation, arr_digest, dec, enc, weighted
 from .world import SimClock, World
 
@@ -443,6 +444,17 @@ class EngineB:
         if result is not None and not (spec.inplace and result is operands[0]):
             parts = self.cat.split_result(spec, result, operands, step)
             for obj, allowed in parts:
+                if isinstance(obj, JudgeOnly):
+                    for o in heap.ids():
+                        sh = heap.shares(obj.arr, heap.objs[o])
+                        if sh is not None and op == "cp_als" and "cp_als_params_echo_optdims" in tolerate and any(step.get(nm) is not None and o == operand_ids[step[nm]] for nm in ("optdims_operand", "dimorder_operand")):
+                            # recorded known finding: output["params"]["optdims"] / ["dimorder"] is the caller's own array
+                            res.bump("probe:known_cp_als_params_echo_optdims")
+                            continue
+                        if sh is not None and self.prop == "C05":
+                            return self._viol(prop, "result_is_independent", op, i, f"{op}({self._describe(step)}): an array of the returned information dictionary shares memory with live object #{o} ({heap.kinds[o]}): {sh}")
+                    res.bump("probe:information_dictionary_array_judged")
+                    continue
                 part_no += 1
                 if obj is None or isinstance(obj, (int, float, bool, np.generic, str)):
                     continue
